@@ -34,30 +34,19 @@ theorem fresh_wf (p : Nat) (hp : 0 < p) (h8 : p * 8 ≤ isizeMax) : WF (fresh p 
 def tp (b : Bar F) : F :=
   Scalar.div (Scalar.add (Scalar.add b.close b.high) b.low) (Scalar.lit 3 0)
 
-/-- Wiring of the generated code: the SMA component is fed the typical price, whereas the MAD
-    component is handed the BAR (`self.mad.next(input)`), i.e. `MeanAbsoluteDeviation.nextBar`,
-    which reads `close` (see `nextBar_wiring_close`) — not the typical price. -/
+/-- Wiring of the generated code (after the repair of `self.mad.next(input)` into
+    `self.mad.next(tp)`): BOTH components are fed the typical price. -/
 theorem nextBar_wiring (s : CommodityChannelIndex F) (b : Bar F)
     (sma' : SimpleMovingAverage F) (a : F) (mad' : MeanAbsoluteDeviation F) (d : F)
-    (h1 : s.sma.next (tp b) = some (sma', a)) (h2 : s.mad.nextBar b = some (mad', d)) :
+    (h1 : s.sma.next (tp b) = some (sma', a)) (h2 : s.mad.next (tp b) = some (mad', d)) :
     s.nextBar b =
       some ({ sma := sma', mad := mad' },
             if Scalar.beq d (Scalar.lit 0 0) then Scalar.lit 0 0
             else Scalar.div (Scalar.sub (tp b) a) (Scalar.mul d (Scalar.lit 15 3))) := by
   unfold nextBar
-  unfold tp at h1 ⊢
+  unfold tp at h1 h2 ⊢
   simp only [h1, h2]
   by_cases c : Scalar.beq d (Scalar.lit 0 0 : F) = true <;> simp [c]
-
-/-- same, with the MAD component's bar path resolved: it consumes `b.close` -/
-theorem nextBar_wiring_close (s : CommodityChannelIndex F) (b : Bar F)
-    (sma' : SimpleMovingAverage F) (a : F) (mad' : MeanAbsoluteDeviation F) (d : F)
-    (h1 : s.sma.next (tp b) = some (sma', a)) (h2 : s.mad.next b.close = some (mad', d)) :
-    s.nextBar b =
-      some ({ sma := sma', mad := mad' },
-            if Scalar.beq d (Scalar.lit 0 0) then Scalar.lit 0 0
-            else Scalar.div (Scalar.sub (tp b) a) (Scalar.mul d (Scalar.lit 15 3))) :=
-  nextBar_wiring s b sma' a mad' d h1 (by rw [MeanAbsoluteDeviation.nextBar_eq]; exact h2)
 
 /-- a component panic is a panic of the whole -/
 theorem nextBar_none_of_sma (s : CommodityChannelIndex F) (b : Bar F)
@@ -67,16 +56,17 @@ theorem nextBar_none_of_sma (s : CommodityChannelIndex F) (b : Bar F)
   simp [h1]
 
 theorem nextBar_none_of_mad (s : CommodityChannelIndex F) (b : Bar F)
-    (h2 : s.mad.nextBar b = none) : s.nextBar b = none := by
+    (h2 : s.mad.next (tp b) = none) : s.nextBar b = none := by
   unfold nextBar
+  unfold tp at h2
   cases h1 : s.sma.next (Scalar.div (Scalar.add (Scalar.add b.close b.high) b.low) (Scalar.lit 3 0 : F)) <;>
     simp [h2]
 
 theorem nextBar_total (s : CommodityChannelIndex F) (b : Bar F) (h : WF s) :
     ∃ r, s.nextBar b = some r ∧ WF r.1 ∧ r.1.period_fn = s.period_fn := by
   obtain ⟨⟨sma', a⟩, h1, w1, p1⟩ := SimpleMovingAverage.next_total s.sma (tp b) h.sma
-  obtain ⟨⟨mad', d⟩, h2, w2, p2⟩ := MeanAbsoluteDeviation.next_total s.mad b.close h.mad
-  refine ⟨_, nextBar_wiring_close s b sma' a mad' d h1 h2, ⟨w1, w2, ?_⟩, ?_⟩
+  obtain ⟨⟨mad', d⟩, h2, w2, p2⟩ := MeanAbsoluteDeviation.next_total s.mad (tp b) h.mad
+  refine ⟨_, nextBar_wiring s b sma' a mad' d h1 h2, ⟨w1, w2, ?_⟩, ?_⟩
   · simp only at p1 p2 ⊢
     rw [p1, p2, h.per]
   · simpa [period_fn, SimpleMovingAverage.period_fn_eq] using p1
